@@ -18,6 +18,10 @@ pub fn replay(ctx: &Ctx, w: &Value) {
         // a race is replayed by racing again: the same lanes and seed, same time budget
         return crate::c14stress::run(ctx);
     }
+    if w.get("engine").and_then(|v| v.as_str()) == Some("c14-quiet") {
+        let g = |k: &str| w.get(k).and_then(|v| v.as_u64()).unwrap_or(1);
+        return crate::c14sock::quiet_round(ctx, g("initial_worker_threads") as usize, g("max_worker_threads") as usize, std::time::Duration::from_millis(g("gap_ms")), w.get("reverse").and_then(|v| v.as_bool()).unwrap_or(false), "rp");
+    }
     let g = |k: &str| w.get(k).and_then(|v| v.as_u64()).unwrap_or(1) as usize;
     let tr = if w.get("transport").and_then(|v| v.as_str()) == Some("Tcp") { crate::sock::Transport::Tcp } else { crate::sock::Transport::UnixPath };
     for _ in 0..5 {
